@@ -795,6 +795,24 @@ Section Signing.
     intros t' Hv. apply digest_inj. apply sig_binds. exact Hv.
   Qed.
 
+  (** the same for the HTLC signatures, under the tweaked HTLC key: the j-th signature is for
+      the digest of the j-th HTLC transaction and for no other digest *)
+  Variable htlc_pub : PK.
+  Hypothesis hsig_valid : forall m, verify htlc_pub m (sign htlc_key m) = true.
+  Hypothesis hsig_binds : forall m m', verify htlc_pub m' (sign htlc_key m) = true -> m' = m.
+
+  Theorem htlc_sigs_bind c sig hs :
+    phase2 c = Ok (sig, hs) ->
+    exists hts, htlc_txs sha rip s k c = Some hts
+      /\ Forall2 (fun sg x => verify htlc_pub (htlc_sighash sha s x) sg = true
+                              /\ forall m, verify htlc_pub m sg = true -> m = htlc_sighash sha s x) hs hts.
+  Proof.
+    intros H. apply phase2_sig in H. destruct H as [_ [_ [_ [hts [E ->]]]]].
+    exists hts. split; [exact E|]. clear E.
+    induction hts as [|x hts IH]; cbn [map]; constructor; [|exact IH].
+    split; [apply hsig_valid|]. intros m Hm. apply hsig_binds. exact Hm.
+  Qed.
+
   Theorem no_foreign_tx_phase2 c sig hs :
     phase2 c = Ok (sig, hs) ->
     verify funding_pub (digest (canon c)) sig = true
